@@ -34,6 +34,43 @@ def Formula.varsList : List Formula → List Nat
   | f :: fs => Formula.vars f ++ Formula.varsList fs
 end
 
+mutual
+/-- No `imp`/`iff` node anywhere (what `elimIff` establishes). -/
+def Formula.NoImp : Formula → Prop
+  | .lit _ => True
+  | .and l => Formula.NoImps l
+  | .or l => Formula.NoImps l
+  | .not f => Formula.NoImp f
+  | .imp _ _ => False
+  | .iff _ _ => False
+def Formula.NoImps : List Formula → Prop
+  | [] => True
+  | f :: fs => Formula.NoImp f ∧ Formula.NoImps fs
+end
+
+def Formula.isLit : Formula → Bool
+  | .lit _ => true
+  | _ => false
+
+def Formula.isOr : Formula → Bool
+  | .or _ => true
+  | _ => false
+
+mutual
+/-- Negation normal form as `demorgan` produces it: literals, negated
+    literals, `and`, `or`; and no `or` directly below an `or`. -/
+def Formula.Shape : Formula → Prop
+  | .lit _ => True
+  | .and l => Formula.Shapes l
+  | .or l => Formula.Shapes l ∧ ∀ g ∈ l, g.isOr = false
+  | .not f => f.isLit = true
+  | .imp _ _ => False
+  | .iff _ _ => False
+def Formula.Shapes : List Formula → Prop
+  | [] => True
+  | f :: fs => Formula.Shape f ∧ Formula.Shapes fs
+end
+
 /-- `σ` and `τ` agree on the variables `1 … n-1` (everything below the first fresh variable). -/
 def AgreeBelow (n : Nat) (σ τ : Assign) : Prop := ∀ v, 1 ≤ v → v < n → σ v = τ v
 
